@@ -128,7 +128,7 @@ type scriptedCheckState struct {
 
 func (st *scriptedCheckState) result(v Verdict, stage string) module.CheckResult {
 	mk := func(code int, ec exterrors.EnhancedCode) error {
-		return &exterrors.SMTPError{Code: code, EnhancedCode: ec, Message: fmt.Sprintf("scripted check %s says no at %s", st.c.Label, stage), CheckName: st.c.Label}
+		return &exterrors.SMTPError{Code: code, EnhancedCode: ec, Message: fmt.Sprintf("scripted check %s says no (нет) at %s", st.c.Label, stage), CheckName: st.c.Label}
 	}
 	switch v {
 	case VIgnore:
